@@ -323,7 +323,15 @@ impl Ctx {
         let n = self.out.viol_by_site.entry(site.to_string()).or_insert(0);
         *n += 1;
         if (*n as usize) <= MAX_KEPT_PER_SITE || self.replaying {
-            self.out.violations.push(Violation { site: site.into(), key: key.into(), what: what(), case: case() });
+            let mut case = case();
+            let ep = crate::shim::epoch();
+            if ep != (crate::shim::T0_SECS, 0) {
+                // the family ran under another epoch: the replay must too
+                if let Some(m) = case.as_object_mut() {
+                    m.insert("epoch".into(), serde_json::json!([ep.0, ep.1]));
+                }
+            }
+            self.out.violations.push(Violation { site: site.into(), key: key.into(), what: what(), case });
         }
     }
     pub fn flush(&self) {
